@@ -36,11 +36,11 @@ MkChunk(leaf, content, cuts, opt) ==
                 encTag |-> IF opt.encTag # 255 THEN opt.encTag ELSE IF dict # <<>> THEN opt.dataEnc ELSE 0,
                 v2 |-> opt.v2, nrows |-> Len(SelectSeq(reps, LAMBDA r : r = 0)),
                 bw |-> bw, idxRuns |-> RunStyle(idx, opt.idxStyle, 0),
-                crc |-> opt.crc, stats |-> NoStatsW]
+                crc |-> opt.crc, stats |-> NoStatsW, hmut |-> IF opt.hmutPage = k THEN opt.hmut ELSE [kind |-> "none"]]
     IN [type |-> leaf.type, tlen |-> leaf.tlen, maxDef |-> leaf.maxDef, maxRep |-> leaf.maxRep, path |-> leaf.path,
         codec |-> opt.codec, codecTag |-> IF opt.codecTag # 255 THEN opt.codecTag ELSE opt.codec, dict |-> dict, dictOffsetField |-> opt.dictOffsetField, dictEnc |-> opt.dictEnc,
         pages |-> [k \in 1..Len(cuts) |-> page(k)], stats |-> opt.stats]
 
 DefaultOpt == [style |-> "rle", idxStyle |-> "rle", useDict |-> FALSE, dictOffsetField |-> TRUE, dictEnc |-> 0, dataEnc |-> 8,
-               crc |-> "none", codec |-> 0, stats |-> NoStatsW, extraWidth |-> 0, v2 |-> FALSE, encTag |-> 255, codecTag |-> 255]
+               crc |-> "none", codec |-> 0, stats |-> NoStatsW, extraWidth |-> 0, v2 |-> FALSE, encTag |-> 255, codecTag |-> 255, hmutPage |-> 0, hmut |-> [kind |-> "none"]]
 =============================================================================
